@@ -1,13 +1,6 @@
-"""Texts for MANIFEST.json, per claimed property."""
-FIX_COMMITS = ["e4b0578 (C04, Stack::push on an over-full stack)"]
+"""Global texts for MANIFEST.json (per-property texts live in props/Cxx.py)."""
+from props_table import META  # noqa: F401
+FIX_COMMITS = ["e4b0578 (C04 Stack::push on an over-full stack)", "fef35a5 (C01 IsOdd on negative numbers)",
+               "b980257 (C01 binary comparisons consume both operands)", "de29cc6 (C10 TwoPointXo cut points 0..=len)",
+               "6b59011 (C10 Bitstring::crossover_segment out-of-range)"]
 NOT_YET = {}
-COMMON_NOTE = ("Trusted: Lean 4.33.0 kernel; axioms at most propext/Classical.choice/Quot.sound (audited each run); "
-               "the hand-written Impl model is tied to /repo only by the correspondence check (real Rust vs compiled Lean model on generated and enumerated cases) - "
-               "assurance is the weaker of theorem-for-all-inputs and agreement-on-what-was-explored; rustc/std not modelled.")
-META = {
-    "C04": {
-        "level_text": "Machine-checked Lean theorems about a code-shaped model of Stack<T>: refinement to a list spec for operation histories of any length (history), atomicity of every failing operation incl. try_extend (atomic), capacity after any history (capacity), underflow payloads and insertion order. The model is tied to the Rust by replaying exhaustive short and seeded random histories on the real Stack<i64>/Stack<String> and comparing every output and the final contents with the compiled model.",
-        "level_note": COMMON_NOTE + " Vec is assumed to behave as a list.",
-        "technique": "Lean 4 refinement proof by induction over histories + differential correspondence check against the real Stack",
-    },
-}
